@@ -37,7 +37,8 @@ pub fn check_day(ast: &OpeningHoursExpression, oh: &Oh, hol_spec: &HolSpec, d: N
     let ranges: Vec<_> = guarded(|| oh.schedule_at(d).into_iter().collect::<Vec<_>>()).map_err(|p| format!("schedule_at({d}) panicked: {p}"))?;
     let hol_ctx = hol_spec.build();
     let hol = Holidays { public: hol_ctx.get_public(), school: hol_ctx.get_school() };
-    let m = model::model_day(ast, d, &hol).ok();
+    // (abstention is per shape, not per day: see C01)
+    let m = if model::abstention(ast, &hol).is_some() { None } else { model::model_day(ast, d, &hol).ok() };
     for tr in &ranges {
         st.ranges_checked += 1;
         if !sorted_unique(&tr.comments) {
